@@ -1,0 +1,21 @@
+//go:build verif
+
+// Contracts for package simd, checked by /verif/govc.  Comment-only file.
+package simd
+
+// firstGE characterisation: r is the index of the first key >= k (keys sit at the
+// even positions), or len(xs)/2 if there is none.
+//@ spec isFirstGE(xs []uint64, k uint64, r int) bool = 0 <= r && r <= len(xs)/2 && (forall i int :: 0 <= i && i < r ==> xs[2*i] < k) && (r < len(xs)/2 ==> xs[2*r] >= k)
+
+//@ func Naive(xs []uint64, k uint64) int16
+//@   requires len(xs)%2 == 0 && len(xs) <= 65534
+//@   loop 1 invariant 0 <= i && i <= len(xs) && i%2 == 0
+//@   loop 1 invariant forall j int :: 0 <= j && 2*j < i ==> xs[2*j] < k
+//@   ensures [C20] #first isFirstGE(xs, k, int(result))
+
+//@ func Search(xs []uint64, k uint64) int16
+//@   asm search_amd64.s
+//@   requires len(xs)%2 == 0 && len(xs) <= 65534
+//@   label loop invariant #regs BP%8 == 0 && BP <= uint64(len(xs)) && BX == uint64(len(xs)) && CX == uint64(len(xs)) && DX == k
+//@   label loop invariant #below forall j int :: 0 <= j && uint64(2*j) < BP ==> xs[2*j] < k
+//@   ensures [C20] #first isFirstGE(xs, k, int(result))
